@@ -822,4 +822,34 @@ example :
     (coldWrite coldInit true (some 6)).2.1 = none ∧ (coldWrite c1 true none).2.1 = some 1 ∧
     readableAfterRestart (coldWrite c1 true none).1 1 = false := by decide
 
+/-! ### secret names -/
+
+/-- **A name that is not in cleaned form touches nothing**: the request is refused and data and metadata of every
+secret are as they were — in particular those of the secret whose cleaned name it shares. -/
+theorem noncanonical_name_refused (s : State) (op : Op) (p : String) (hp : op.path? = some p)
+    (hc : canonicalName p = false) : stepC s op = (s, .err .badPath) := by
+  unfold stepC
+  simp [hp, hc]
+
+/-- requests under names in cleaned form are the register specification (`step`) unchanged -/
+theorem canonical_name_served (s : State) (op : Op) (p : String) (hp : op.path? = some p)
+    (hc : canonicalName p = true) : stepC s op = step s op := by
+  unfold stepC
+  simp [hp, hc]
+
+/-- **Two served names never share a cleaned form**: metadata (stored under the cleaned name) and version blobs (stored
+under the name as given) of served names are keyed alike. -/
+theorem served_names_do_not_alias (p q : String) (hp : canonicalName p = true) (hq : canonicalName q = true)
+    (h : cleanName p = cleanName q) : p = q := by
+  unfold canonicalName at hp hq
+  simp only [beq_iff_eq] at hp hq
+  rw [← hp, ← hq, h]
+
+/-- **Finding F68 (repaired)**: the names the backend used to serve as well — `app/`, `/app`, `team//db` — have the
+cleaned form of another secret's name and are not in cleaned form themselves. -/
+theorem noncanonical_alias_cex :
+    cleanName "app/" = cleanName "app" ∧ cleanName "/app" = cleanName "app" ∧ cleanName "team//db" = cleanName "team/db" ∧
+    canonicalName "app/" = false ∧ canonicalName "/app" = false ∧ canonicalName "team//db" = false ∧
+    canonicalName "app" = true ∧ canonicalName "team/db" = true := by decide
+
 end C14
